@@ -125,14 +125,17 @@ def orderedTags (m : Tables) : List Nat := (orderedEntries m).map Prod.fst
 
 /-- `SearchRange::compute(n_items, item_size)`;
 `(n as f64).log2().floor() as usize` is `⌊log₂ n⌋` (and `0` for `n = 0`: `-inf as usize`),
-the three `try_into::<u16>().unwrap()` trap when a value does not fit. -/
-def searchRange (n itemSize : Nat) : Option (Nat × Nat × Nat) :=
+`range_shift = (n_items * item_size).saturating_sub(search_range)` uses the UNCLAMPED
+`search_range`; then each of the three `usize` values is stored with
+`try_into::<u16>().unwrap_or(u16::MAX)`: a value that does not fit saturates to 65535
+(nothing traps). -/
+def searchRange (n itemSize : Nat) : Nat × Nat × Nat :=
   let entrySelector := Nat.log2 n
   let searchRange := 2 ^ entrySelector * itemSize
-  let rangeShift := n * itemSize - searchRange
-  if searchRange < 65536 ∧ entrySelector < 65536 ∧ rangeShift < 65536 then
-    some (searchRange, entrySelector, rangeShift)
-  else none
+  let rangeShift := n * itemSize - searchRange        -- `saturating_sub` = `Nat` subtraction
+  (if searchRange < 65536 then searchRange else 65535,
+   if entrySelector < 65536 then entrySelector else 65535,
+   if rangeShift < 65536 then rangeShift else 65535)
 
 /-! ## `build` -/
 
@@ -183,8 +186,10 @@ def bodyBytes (adj : Nat) (es : Tables) : Bytes :=
 /-- `checksums.into_iter().fold(0u32, u32::wrapping_add)` -/
 def wrappingSum (xs : List Nat) : Nat := xs.foldl (fun a c => (a + c) % 4294967296) 0
 
-/-- `FontBuilder::build`; `none` = panic (u32 position overflow, more than 65535 records,
-or a `SearchRange` field that does not fit `u16`, i.e. 4096 or more tables). -/
+/-- `FontBuilder::build`; `none` = panic: u32 position overflow (strict profile), or more than
+65535 records (`assert!(table_records.len() <= u16::MAX as usize)` in
+`TableDirectory::from_table_records`: `numTables` is a `u16`).  `SearchRange::compute` itself never
+panics (its fields saturate). -/
 def build (m : Tables) : Option Bytes :=
   let n := m.length
   let headerLen := 4 + 2 * 4 + n * 16
@@ -194,13 +199,11 @@ def build (m : Tables) : Option Bytes :=
   | some recs =>
     let sorted := recs.mergeSort (fun a b => decide (a.tag ≤ b.tag))
     if 65535 < n then none else                       -- assert!(len <= u16::MAX)
-    match searchRange n 16 with
-    | none => none
-    | some (sr, es, rs) =>
-      let dir := dirBytes sr es rs sorted
-      let total := wrappingSum (recs.map (·.checksum) ++ [checksum dir])
-      let adj := (0xB1B0AFBA + 4294967296 - total) % 4294967296   -- wrapping_sub
-      some (dir ++ bodyBytes adj es0)
+    let sr := searchRange n 16
+    let dir := dirBytes sr.1 sr.2.1 sr.2.2 sorted
+    let total := wrappingSum (recs.map (·.checksum) ++ [checksum dir])
+    let adj := (0xB1B0AFBA + 4294967296 - total) % 4294967296   -- wrapping_sub
+    some (dir ++ bodyBytes adj es0)
 
 /-! ## the reader: `FontRef::new`, `table_records`, `table_data` -/
 
